@@ -355,6 +355,12 @@ def record_completeness(ctx, rule):
                 k = getattr(x, 'pkey', None)
                 if k and k.startswith('self.results[') and isinstance(x, ast.Subscript):
                     recorded.append((k, x.slice))
+                # a local name holding the very object that was stored back (`self.results[name] = new; step.to.append(new)`)
+                if isinstance(x, Ref) and not x.name.startswith('self.results['):
+                    for st_ in stores:
+                        v_ = st_[3]
+                        if v_ is x or (isinstance(v_, Ref) and v_.defid == x.defid):
+                            recorded.append((st_[2], None))
         seen = set()
         for stmt, target, key, value, before, rt in stores:
             if key in seen:
@@ -446,7 +452,7 @@ def record_protocol(ctx, rule, once_rule=None):
         fact = ''
         for c, s, b in appends:
             a = c.args[0] if c.args else None
-            is_result = _is_results_ref(a)
+            is_result = _is_results_ref(a, ff, s)
             after_ops = first_op is not None and ff.seq(s) > first_op
             fact = f"appends {show(a, 40)}"
             if not (is_result and after_ops):
@@ -515,12 +521,21 @@ def per_instance_state(ctx, rule):
            fact=f"{n} class-level mutable defaults examined", nontrivial=False, key='per-instance record')
 
 
-def _is_results_ref(a):
-    """A value that was stored into self.results[..] earlier in this branch (on every path)."""
+def _is_results_ref(a, ff=None, at=None):
+    """A value that was stored into self.results[..] earlier in this branch (on every path): read back from there, or the
+    local name the very object was stored from (`self.results[name] = new; step.to.append(new)`)."""
     if isinstance(a, Ref):
-        return a.name.startswith('self.results[')
+        if a.name.startswith('self.results['):
+            return True
+        if ff is not None and at is not None:
+            for st in ff.stores:
+                if st[2] and st[2].startswith('self.results[') and ff.seq(st[0]) < ff.seq(at):
+                    v = st[3]
+                    if v is a or (isinstance(v, Ref) and v.defid == a.defid) or same_value(v, a):
+                        return True
+        return False
     if isinstance(a, Phi):
-        return all(_is_results_ref(o) for o in a.options)
+        return all(_is_results_ref(o, ff, at) for o in a.options)
     return False
 
 
@@ -584,7 +599,7 @@ def substances_used(ctx):
                 v = strip_refs(stores[0][3])
                 post = ff.seq(stores[0][0]) > first_op
                 recv = v.func.value if isinstance(v, ast.Call) and isinstance(v.func, ast.Attribute) else None
-                created = _is_results_ref(recv)
+                created = _is_results_ref(recv, ff, stores[0][0])
                 ok = post and created and call_name(v)[1] == 'get_substances'
                 fact = f"{show(stores[0][3], 60)} computed {'after' if post else 'before'} the creation"
             why = 'the recorded set must be the substances of the created container'
